@@ -37,7 +37,15 @@ def _open(vf, parent):
     from dissect.hypervisor.disk.hdd import HDS
 
     vf.seek(0)
+    _OPENS[0] += 1
+    if parent and _OPENS[0] % 2:
+        h = HDS(vf)          # the parent is a public attribute: attached after construction it counts just the same
+        h.parent = parent()
+        return h
     return HDS(vf, parent=parent() if parent else None)
+
+
+_OPENS = [0]
 
 
 def build(img, prof, P=None, size_bytes=None):
